@@ -181,6 +181,29 @@ def check_cds_view(ctx, A, B, spec, cs, ce, g, what="cds", cst="+"):
                 ctx.label("codons_read_before_sequence_on_minus_chunk")
     except BioCantorException as e:
         ctx.fail(what + ":chunk_view_first_raises", {"exc": repr(e)[:120], "any_inside": any_inside})
+    # windowed scans of the chunk-relative view: a window in CHROMOSOME coordinates (documented) on an object built on the chunk
+    # yields the codons of the walk that lie on the chunk and inside the window (touching it when the window is expanded to whole
+    # codons) - "the resulting codons will maintain frame"
+    nonov = all(bl[i][1] <= bl[i + 1][0] for i in range(len(bl) - 1))
+    if any_inside and nonov and not spec.get("frameshift"):
+        lo_, hi_ = bl[0][0], bl[-1][1]
+        for ws, we in spec.get("windows") or [(lo_ + 1, hi_), (lo_, max(lo_ + 1, hi_ - 2)), (lo_ + 2, max(lo_ + 3, hi_ - 1)), (cs, ce), (lo_ + 4, hi_ + 3)]:
+            for expand in (False, True):
+                if expand:
+                    exp_w = [c for c in inside_codons if any(ws <= p < we for p in c)]
+                else:
+                    exp_w = [c for c in inside_codons if all(ws <= p < we for p in c)]
+                try:
+                    B4 = mkcds(spec, chunk_parent(g, cs, ce, strand=cst))
+                    got_w = [tuple(up(p) for p in t) for t in codon_triples(B4.scan_chunk_relative_codon_locations(ws, we, expand))]
+                except (BioCantorException, ValueError) as e:
+                    # a documented refusal is acceptable only for a window holding no base of any codon on the chunk
+                    if any(ws <= p < we for c in inside_codons for p in c):
+                        ctx.fail(what + ":windowed_chunk_relative_codons_raise", {"window": [ws, we], "expand": expand, "exc": repr(e)[:100]})
+                    continue
+                ctx.eq(what + ":windowed_chunk_relative_codons[expand=%d]" % expand, got_w, exp_w, extra={"chunk": [cs, ce], "window": [ws, we]})
+                if exp_w and len(exp_w) < len(inside_codons):
+                    ctx.label("window_inside_chunk_view")
     seqs = [rm.seq_image(g, c, strand).upper() for c in inside_codons]
     B2 = mkcds(spec, chunk_parent(g, cs, ce, strand=cst))
     if any_inside:
